@@ -78,16 +78,17 @@ def fr_worker(which):
     fi = m[0]
     selfv = Sym(("attr_spec",), {CLS})
     args = [selfv] + ([Sym(("spec_cls",), {CLS})] if which == "lookup_default_value" else [])
-    it, outs = run_function(ctx.p, ctx.H, fi, args, {}, configure=_conf_attr(ctx))
+    it, outs = run_function(ctx.p, ctx.H, fi, args, {}, configure=_conf_attr(ctx, lambda cfg: setattr(cfg, "watch_calls", {"Attr.default_value"})))
     rows = []
     for o in outs:
         v = o.value
         rows.append({"kind": o.kind, "ret": vrepr(v) if o.kind == "ok" else v.cls,
                      "prov": sorted(v.prov) if isinstance(v, Sym) else [],
+                     "default_value_called": any(e[0] == "CALL" for e in o.state.trace),
                      "sentinel": isinstance(v, Sentinel), "imm": sorted(immutable_reprs(o.state.facts)),
                      "desc": describe_path(o, 6),
-                     "dec": [f"{k[0]}:{'/'.join(map(str, k[1])) if isinstance(k[1], tuple) else k[1]}={b}"
-                             for k, b in o.state.decisions if k[0] not in ("isinstance",)][:8]})
+                     "dec": [f"{k[0]}:{'/'.join(map(str, k[1])) if isinstance(k[1], tuple) else k[1]}{'~owner' if 'owner' in repr(k) else ''}={b}"
+                             for k, b in o.state.decisions if k[0] not in ("isinstance",)][:10]})
     return {"which": which, "rows": rows, "functions": sorted(it.functions_entered)}
 
 
@@ -271,6 +272,32 @@ def check(ctx, rep: Report):
     if len(reads) < 5:
         raise AnalysisError(f"C08.RD: only {len(reads)} default reads found (floor 5)")
 
+
+    # ---- PEER: the instance returned by a copy-on-write helper is a deep copy (shared with C02.S)
+    rep.rules["C08.PEER"] = "copy-on-write helpers return a deep copy: no mutable state shared with the peer it was derived from"
+    from . import c02, provrun
+    tasks = [t for t in provrun.helper_tasks(ctx, families=False) if t[0].startswith("Reset")]
+    for r in pmap(c02.worker, tasks):
+        rep.evaluations += len(r["paths"])
+        shallow = [v for v in r["viols"] if v["how"] in ("shallow-copy", "return")]
+        rep.oblige("C08.PEER", r["entry"], not shallow)
+        for v in shallow[:1]:
+            rep.violate(Violation("C08.PEER", f"C08.PEER|{r['task'][0]}", f"{r['task'][0]} returns a shallow / memo-seeded copy (`{v['value']}`): the result and the receiver share every other attribute's nested value",
+                                  "", r["task"][0], v["path"], r["entry"]))
+
+    # ---- OWNER: the owner's stored default is used only for the owning class itself
+    rep.rules["C08.OWNER"] = "lookup_default_value: Attr.default_value is returned only when the class reached in the MRO walk is the owner"
+    r0 = [r for r in pmap(fr_worker, ["lookup_default_value"])][0]
+    bad_owner = []
+    for row in r0["rows"]:
+        if row["kind"] != "ok" or not row.get("default_value_called"):
+            continue
+        if not any(d.startswith("is:") and "owner" in d and d.endswith("=True") for d in row["dec"]):
+            bad_owner.append("; ".join(row["dec"][-3:]))
+    rep.oblige("C08.OWNER", "Attr.lookup_default_value", not bad_owner, "; ".join(bad_owner[:1]))
+    for b in sorted(set(bad_owner))[:1]:
+        rep.violate(Violation("C08.OWNER", "C08.OWNER|default_value-for-non-owner", f"lookup_default_value returns the owner's stored default for a class that is not the owner ({b}): a nearer re-default along the MRO is ignored",
+                              "", "Attr.lookup_default_value"))
 
     # ---- MRO (must-pass-through)
     rep.rules["C08.MRO"] = "lookup_default_value: every return lies inside or after the loop over the instance class's MRO (subclass overrides are always consulted)"
